@@ -161,6 +161,10 @@ def decode_value(v, model):
         return _decode_seq(e, v.elem)
     if isinstance(v, SObj):
         return ("obj", v.cls.__name__, {k: decode_value(x, model) for k, x in v.attrs.items()})
+    if type(v).__name__ == "PathVal" and hasattr(v, "s"):
+        import pathlib
+
+        return pathlib.Path(decode_value(v.s, model))
     if isinstance(v, SOpaque):
         return f"<{v.sort}:{_ev(model, v.t)}>"
     from .digits import DigitStr, DigitChar
